@@ -675,7 +675,21 @@ func (g *gen) table(prefix string, depth int) *node {
 	}
 	if g.chance(0.25) {
 		g.feat("table:tfoot")
-		t.kids = append(t.kids, rows("tfoot", 1, "td", g.chance(0.3)))
+		foot := rows("tfoot", 1, "td", g.chance(0.3))
+		if g.chance(0.5) {
+			// HTML 4 / XHTML 1.x order: tfoot written before the tbody elements
+			g.feat("table:tfoot-before-tbody")
+			at := len(t.kids)
+			for i, k := range t.kids {
+				if k.tag == "tbody" {
+					at = i
+					break
+				}
+			}
+			t.kids = append(t.kids[:at:at], append([]*node{foot}, t.kids[at:]...)...)
+		} else {
+			t.kids = append(t.kids, foot)
+		}
 	}
 	return t
 }
